@@ -16,7 +16,7 @@ import ast
 from ..flow import PathEnum
 from ..model import AnalysisError, Func, Repo, dotted, is_name, norm, walk_shallow
 from ..report import Ledger
-from ..sym import B, Const, Lin, Range, Slice, State, Sym, SymExec, Tup, as_lin, b_not, cmp_lin, opaque, NotNumeric
+from ..sym import eq0, B, Const, Lin, Range, Slice, State, Sym, SymExec, Tup, as_lin, b_not, cmp_lin, opaque, NotNumeric
 from ..util import paths
 
 PROP = "C12"
@@ -305,7 +305,7 @@ def _r345(repo, L, ia, find: Func):
         s2 = stb.clone()
         m = Lin.atom("m")
         s2.env[mvar] = m
-        s2.pc.append(B("eq", m) if zero else b_not(B("eq", m)))
+        s2.pc.append(eq0(m) if zero else b_not(eq0(m)))
         r_start = Lin.const(1) if zero else row_start_nz(m)
         left_of = cmp_lin("<", row_end(m), bs)
         right_of = cmp_lin(">", r_start, be)
@@ -386,7 +386,7 @@ def _r345(repo, L, ia, find: Func):
         k = Lin.atom("k")
         s4 = s3.clone()
         s4.env[kv] = k
-        s4.pc.append(b_not(B("eq", k)))  # k > 0 for the right loop (k >= ovr+1); for the left loop use row_end only
+        s4.pc.append(b_not(eq0(k)))  # k > 0 for the right loop (k >= ovr+1); for the left loop use row_end only
         outs = ex.run_block(fl.body, s4, find, loop_iters=(0,))
         excl = cmp_lin("<", row_end(k), bs) if direction == "left" else cmp_lin(">", row_start_nz(k), be)
         okx, whyx = True, ""
@@ -433,7 +433,7 @@ def _r345(repo, L, ia, find: Func):
     for zero in (True, False):
         s5 = st1.clone()
         s5.env[first_v], s5.env[last_v] = i, j
-        s5.pc.append(B("eq", i) if zero else b_not(B("eq", i)))
+        s5.pc.append(eq0(i) if zero else b_not(eq0(i)))
 
         class _Cap(SymExec):
             captured = None
